@@ -10,13 +10,13 @@ three record disciplines, dictionary, union) and all serde value kinds, at any n
 
 * `NoCap ext b x` (`Lemmas/C01CompDefs.lean`): `vsize ext x ≤ room b`, the value fits into the head room of the
   builder, so that no CAPACITY check can refuse it (`increment_last` beyond `i32::MAX`, view buffers / lengths beyond
-  `i32::MAX`, dictionary keys beyond the key type, and — repo fix fe68100 — the checked per-variant row counter
+  `i32::MAX`, dictionary keys beyond the key type, and — repo fix 217d612 — the checked per-variant row counter
   `current_offset[v] + 1` of a union beyond `i32::MAX`).  `small_NoCap` gives the closed form
   `room b = min (2^31 - 1 - used b) (keysRoom b)`;
 * `total dt n md`: the explicit NON-capacity exclusion found by this proof (see `default_refused` below): a nullable
   struct / fixed-size list must have children that support `serialize_default` (a union: SOME variant is not an
   `UnknownVariant` placeholder and the first such supports it — repo fix 837fa53, `default_first_real`; before the
-  fix it had to be variant 0), and unions have ≤ 128 variants.  Since repo fix fe68100 a default is one counted ROW of
+  fix it had to be variant 0), and unions have ≤ 128 variants.  With repo fix 217d612 a default is one counted ROW of
   that variant, and a `None` of a `FixedSizeList(_, m)` (size 1) sends `m` of them: `serialize_default` is supported by
   a fixed-size list of size `m > 1` only when no union is reachable by defaults below it (`noDefUF`; see
   `default_fsl_union_refused`);
@@ -274,7 +274,7 @@ theorem default_variant0_pinned :
     (pushDefaultKAt exUnionFs (firstReal exUnionFs) 1).isOk = true := by
   refine ⟨by decide +kernel, by decide +kernel, by decide +kernel⟩
 
-/-! ### the exclusion added with the checked union row counters (repo fix fe68100) -/
+/-! ### the exclusion added with the checked union row counters (repo fix 217d612) -/
 
 /-- `l: FixedSizeList(Union[0: A = Null], 2)?` -/
 def exFslUnionDT : DataType :=
